@@ -406,6 +406,53 @@ def leb_unit(_):
     return out, n
 
 
+def uleb_ref(v):
+    out = bytearray()
+    while True:
+        b = v & 0x7F
+        v >>= 7
+        if v:
+            out.append(b | 0x80)
+        else:
+            out.append(b)
+            return bytes(out)
+
+
+def var_array_unit(_):
+    """arrays of nested structures whose elements have different lengths (terminated / counted / LEB128 member):
+    every element is read where the previous one ended"""
+    from amoco.system.structs import StructFactory
+    out = []
+    n = 0
+    variants = [
+        ("terminated", "B : kind\ns*~ : name", lambda k, payload: bytes([k]) + payload + b"\0", lambda e: (e.kind, bytes(e.name).rstrip(b"\0"))),
+        ("counted", "B : kind\ns*~B : name", lambda k, payload: bytes([k, len(payload)]) + payload, lambda e: (e.kind, bytes(e.name))),
+        ("leb128", "B : kind\nB*%leb128 : v", lambda k, payload: bytes([k]) + uleb_ref(len(payload) * 1000 + k), lambda e: (e.kind, e.v)),
+    ]
+    payloads = [b"abcde", b"xy", b"klmnopq", b"r", b"", b"stuvw"]
+    for (vname, fmt, enc, dec) in variants:
+        for count in (2, 3, 4, 6):
+            for rot in range(len(payloads) if count > 2 else 1):
+                items = [(3 + i, payloads[(i + rot) % len(payloads)]) for i in range(count)]
+                if vname == "terminated" and any(not p_ for _k, p_ in items):
+                    continue
+                n += 1
+                tn = "VA_%s_%d" % (vname, count)
+                case = {"vararray": vname, "count": count, "rot": rot}
+                try:
+                    El = StructFactory(tn + "_el", fmt)
+                    Tb = StructFactory(tn, "H : magic\n%s_el*%d : entries" % (tn, count))
+                    raw = b"\x01\x02" + b"".join(enc(k, p_) for k, p_ in items)
+                    t = Tb().unpack(raw + b"\xee" * 8)
+                    got = [dec(e) for e in t.entries]
+                    want = [(k, (p_ if vname != "leb128" else len(p_) * 1000 + k)) for k, p_ in items]
+                    if t.magic != 0x0201 or got != want:
+                        out.append((("var-array", vname, "unpack-value"), "array of %d %s records: decoded as %r, the bytes encode %r" % (count, vname, got, want), case))
+                except Exception as ex:
+                    out.append((("var-array", vname, "unpack-exc:%s@%s" % exc_sig(ex)), "array of %d %s records: unpack raised %r" % (count, vname, ex), case))
+    return out, n
+
+
 def definitions(tier):
     full = tier == "thorough"
     K = kinds(full)
@@ -548,6 +595,10 @@ def run(tier, seed):
     lo, ln = leb_unit(None)
     for sig, what, case in lo:
         rep.add(Failure(sig, what, case))
+    vo, vn = var_array_unit(None)
+    for sig, what, case in vo:
+        rep.add(Failure(sig, what, case, rank=case.get("count", 0)))
+    ln += vn
     rep.failures.sort(key=lambda f: (f.rank, f.sig))
     rep.coverage.update({
         "states": n, "transitions": n * 6 + ln, "traces_validated_against_impl": n,
@@ -565,6 +616,9 @@ def run(tier, seed):
 
 
 def replay(case):
+    if "vararray" in case:
+        out, _ = var_array_unit(None)
+        return [Failure(s, w, c) for s, w, c in out if c == case]
     if "leb" in case:
         out, _ = leb_unit(None)
         return [Failure(s, w, c) for s, w, c in out if c.get("leb") == case["leb"]]
